@@ -325,6 +325,10 @@ fn crash_strat() -> impl Strategy<Value = CrashCase> {
 		2 => (any::<u16>(), any::<bool>()).prop_map(|(chan, on)| COp::AsyncB { chan, on }),
 		2 => any::<u16>().prop_map(|pair| COp::Base(Op::Disconnect { pair })),
 		3 => any::<u16>().prop_map(|pair| COp::Base(Op::Reconnect { pair })),
+		// on-chain continuations inside the crash flows: a link of a held payment is closed and the recipient
+		// claims on chain; blocks pass (the closed channel's monitor may be fully resolved before the crash)
+		4 => (any::<u16>(), proptest::bool::weighted(0.7), any::<bool>(), 0u8..4, proptest::bool::weighted(0.85)).prop_map(|(pay, downstream, by_b, blocks, claim)| COp::CloseThenClaim { pay, downstream, by_b, blocks, claim }),
+		6 => (1u8..9, any::<bool>()).prop_map(|(blocks, reverse)| COp::Mine { blocks, reverse }),
 	];
 	(
 		world_spec(vec![Topology::Line3, Topology::Line3, Topology::Line3Parallel, Topology::Line4]),
@@ -335,8 +339,27 @@ fn crash_strat() -> impl Strategy<Value = CrashCase> {
 		proptest::collection::vec(prop_oneof![3 => Just(0u16), 1 => Just(20000u16), 1 => any::<u16>()], 1..5),
 		proptest::collection::vec(proptest::bool::weighted(0.3), 1..5),
 		proptest::collection::vec(proptest::bool::weighted(0.8), 1..4),
+		// a third of the flows continue on chain in a fixed order with generated parameters: a link of a held
+		// payment is closed, the recipient claims there, blocks pass in two runs (the second long enough for the
+		// closed channel's monitor to be fully resolved) with a few atomic steps in between
+		(
+			proptest::bool::weighted(0.34),
+			(any::<u16>(), proptest::bool::weighted(0.8), any::<bool>(), 0u8..4, proptest::bool::weighted(0.9)),
+			(1u8..5, 3u8..10, any::<bool>()),
+			any::<u16>(),
+		),
 	)
-		.prop_map(|(mut spec, mut setup, (pay, k, then), mut steps, (all_points, points), snaps, landed, resolutions)| {
+		.prop_map(|(mut spec, mut setup, (pay, k, then), mut steps, (all_points, points), snaps, landed, resolutions, (onchain_tail, (cpay, downstream, by_b, blocks, claim), (m1, m2, reverse), async_chan))| {
+			if onchain_tail {
+				let keep = steps.len().min(8);
+				let mut tail: Vec<COp> = steps.drain(..keep).collect();
+				let cut = tail.len() / 2;
+				let second: Vec<COp> = tail.split_off(cut);
+				steps = vec![COp::AsyncB { chan: async_chan, on: true }, COp::CloseThenClaim { pay: cpay, downstream, by_b, blocks, claim }, COp::Mine { blocks: m1, reverse }];
+				steps.extend(tail);
+				steps.push(COp::Mine { blocks: m2, reverse: false });
+				steps.extend(second);
+			}
 			// room for forwarding, and a snapshot that is not older than the payments' arrival at the recipient
 			spec.dust_exposure_fixed_msat = None;
 			spec.dust_exposure_multiplier = spec.dust_exposure_multiplier.max(10_000);
